@@ -1175,8 +1175,8 @@ static inline int myth_uncond_signal_body(myth_uncond_t * u) {
   }
   to_wake->env = env;
   MYTH_VERIF_POINT(76);
-  MYTH_VERIF_EV1("UcClr", VUC(u));
   u->th = 0;
+  MYTH_VERIF_EV2("UcClr", VUC(u), VD(u->th));
   myth_queue_push(&env->runnable_q, to_wake);
   return 0;
 }
